@@ -14,7 +14,7 @@ from vf import runner, step
 from vf.runner import UnitSpec
 from vf.unit import eq, holds, from_code, _tb_tail
 
-TABLES = ['isa_dp', 'isa_br', 'isa_ls', 'isa_ls_wb']
+TABLES = ['isa_dp', 'isa_br', 'isa_ls', 'isa_ls_wb', 'isa_sys']
 
 # menu: name -> (row, word, length, kind)
 MENU = {
@@ -27,7 +27,10 @@ MENU = {
     'b16': ('BT2', 0xE002, 16, 'branch'),                    # B .+8   (only as last instruction of the block)
     'svc': ('SvcT1', 0xDF01, 16, 'exc'),
     'udf': ('UdfT1', 0xDE01, 16, 'exc'),
+    # SVC whose handler (Thumb, at the SVC vector) immediately returns with SUBS PC, LR, #0: the block continues
+    'svc+ret': ('SvcT1', 0xDF01, 16, 'excret'),
 }
+HANDLER_RETURN = ('SubsPcLrThumbT1', 0xF3DE8F00, 32)
 BODY = ['adds16', 'cmp16', 'mov16', 'addw32', 'nop16', 'ldr16']
 ENDERS = ['b16', 'svc', 'udf']
 
@@ -44,13 +47,22 @@ def mk_itseq(shape, block_len, arch=7):
         step.load_tables(TABLES)
         cfg, ov = MC.std_cfg(arch=arch)
         itE = ISA['ItT1']
-        prog = [('it', itE, None, 16)] + [(n, ISA[MENU[n][0]], MENU[n][1], MENU[n][2]) for n in shape]
+        prog = [('it', itE, None, 16, 'seq')]
+        for n in shape:
+            prog.append((n, ISA[MENU[n][0]], MENU[n][1], MENU[n][2], 'seq'))
+            if MENU[n][3] == 'excret':
+                prog.append(('handler-return', ISA[HANDLER_RETURN[0]], HANDLER_RETURN[1], HANDLER_RETURN[2], 'vector'))
         trailing = shape and MENU[shape[-1]][3] not in ('branch', 'exc') and len(shape) == block_len
         if trailing:
-            prog.append(('nop16', ISA['NopT1'], 0xBF00, 16))
+            prog.append(('nop16', ISA['NopT1'], 0xBF00, 16, 'seq'))
+        has_ret = any(MENU[n][3] == 'excret' for n in shape)
 
         def build():
-            m = MC.Machine(env, cfg, ov, thumb=True, it='none', e_sym=False)
+            # exception handlers run in Thumb state at the normal vectors (SCTLR.TE = 1, V = 0), secure svc routing
+            m = MC.Machine(env, cfg, ov, thumb=True, it='none', e_sym=False,
+                           set_sys={'sctlr': 0x40C50078, 'scr': 0},
+                           sym_sys=({'vbar': 0xFFFFFFE0} if has_ret else {}),
+                           mode=(['usr', 'sys', 'irq', 'fiq', 'abt', 'und'] if has_ret else None))
             firstcond = env.bvvar('firstcond', 4)
             mask = env.bvvar('mask', 4)
             # the block has block_len slots: lowest set bit of mask at position 4 - block_len
@@ -64,19 +76,29 @@ def mk_itseq(shape, block_len, arch=7):
             arr = m.mem0
             off = 0
             m.words = []
-            for name, E, word, length in prog:
+            if has_ret:
+                vec = m.pre.sys['vbar'] + 8
+                # the handler does not overlap the program
+                env.assume(z3.And(z3.UGE(vec - pc, 64), z3.UGE(pc - vec, 64)))
+            voff = 0
+            for name, E, word, length, where in prog:
                 w = itword if name == 'it' else z3.BitVecVal(word, length)
                 if length == 16:
                     bs = [P.bits(w, 7, 0), P.bits(w, 15, 8)]
                 else:
                     bs = [P.bits(w, 23, 16), P.bits(w, 31, 24), P.bits(w, 7, 0), P.bits(w, 15, 8)]
                 for b in bs:
-                    arr = z3.Store(arr, z3.simplify(pc + off), z3.simplify(b))
+                    if where == 'vector':
+                        addr = z3.simplify(vec + voff)
+                        voff += 1
+                    else:
+                        addr = z3.simplify(pc + off)
+                        off += 1
+                    arr = z3.Store(arr, addr, z3.simplify(b))
                     if not env.symbolic:
-                        a = z3.simplify(pc + off).as_long()
+                        a = addr.as_long()
                         m.content0[a] = z3.simplify(b).as_long()
                         m.mem.content[a] = m.content0[a]
-                    off += 1
             m.mem0 = arr
             m.pre.mem = arr
             if env.symbolic:
@@ -85,11 +107,13 @@ def mk_itseq(shape, block_len, arch=7):
             S = m.pre
             chain = []
             unp_all = z3.BoolVal(False)
-            for name, E, word, length in prog:
+            for name, E, word, length, where in prog:
                 f = m.itf if name == 'it' else fields_of(E, word)
                 S1, unp, info = isa.step(S, E, f)
                 unp_all = z3.Or(unp_all, unp)
                 chain.append((name, S, S1, info))
+                if name in MENU and MENU[name][3] == 'excret':
+                    env.assume(info['passed'])  # the SVC slot executes (its handler then returns into the block)
                 S = S1
             m.chain = chain
             env.assume(z3.Not(unp_all))
@@ -125,14 +149,21 @@ def mk_itseq(shape, block_len, arch=7):
             it_now = P.cat(P.bits(c, 15, 10), P.bits(c, 26, 25))
             if name == 'it':
                 cl.append(holds('IT sets ITSTATE = firstcond:mask', it_now == P.cat(m.itf['firstcond'], m.itf['mask'])))
-            kind = MENU[name][3] if name in MENU else 'it'
+            kind = MENU[name][3] if name in MENU else ('it' if name == 'it' else 'ret')
+            if kind == 'ret':
+                prev = m.chain[i - 1][1]
+                adv = prev.copy()
+                adv.it_advance()
+                cl.append(holds('step %d: exception return restores the (advanced) ITSTATE saved in the SPSR' % i,
+                                it_now == adv.it()))
             if kind == 'dp16' and 1 <= i <= block_len:
                 cl.append(holds('step %d: 16-bit data-processing inside the block does not set flags' % i,
                                 P.bits(c, 31, 28) == P.bits(S0.cpsr, 31, 28)))
-            if kind == 'exc':
+            if kind in ('exc', 'excret'):
                 took = info['exception']
                 cl.append(holds('step %d: exception entry clears CPSR.IT' % i, z3.Implies(took, it_now == 0)))
-            if i == block_len and kind not in ('exc',):
+            if i == block_len + (1 if has_ret else 0) and kind not in ('exc',) and not \
+                    (has_ret and any(MENU[n][3] == 'excret' for n in shape[i - 1:])):
                 cl.append(holds('ITSTATE empty after the last instruction of the block', it_now == 0))
         return cl
     return fn
@@ -151,8 +182,15 @@ def shapes(tier, seed=0):
                 (('cmp16', 'ldr16', 'adds16', 'b16'), 4), (('mov16', 'svc'), 4), (('adds16', 'udf'), 3),
                 (('cmp16', 'cmp16', 'svc'), 4), (('addw32', 'addw32', 'addw32', 'addw32'), 4),
                 (('svc',), 3), (('udf',), 4), (('ldr16', 'ldr16'), 2), (('mov16', 'adds16', 'cmp16', 'udf'), 4),
-                (('nop16', 'b16'), 2), (('cmp16', 'adds16', 'svc'), 3)]
+                (('nop16', 'b16'), 2), (('cmp16', 'adds16', 'svc'), 3),
+                (('svc+ret', 'mov16'), 2), (('svc+ret', 'adds16', 'mov16', 'cmp16'), 4),
+                (('cmp16', 'svc+ret', 'adds16'), 3), (('adds16', 'mov16', 'svc+ret', 'addw32'), 4),
+                (('mov16', 'svc+ret', 'mov16', 'adds16'), 4)]
         return out
+    for L in (2, 3, 4):
+        for pos in range(L - 1):
+            for body in itertools.product(['adds16', 'mov16', 'cmp16'], repeat=L - 1):
+                out.append((body[:pos] + ('svc+ret',) + body[pos:], L))
     for L in (1, 2, 3, 4):
         for body in itertools.product(BODY, repeat=L):
             out.append((body, L))
